@@ -795,6 +795,8 @@ def split_lines_spec(data):
 def judge_reader(case, o):
     meta = case['meta']
     tag = 'reader:%s:%s:%s' % ('hdr' if case['header'] else 'nohdr', meta['eol'], 'final-newline' if meta['final'] else 'no-final-newline')
+    if meta.get('long'):
+        tag += ':long-line'
     if 'reads' not in o:
         return [(tag + ':newreader', 'NewReader failed: %s' % o.get('newreader_err', o))]
     reads = o['reads'] or []
@@ -854,6 +856,49 @@ def shrink_rt(case, sigprefix, bam=False):
         if any(f[0].startswith(sigprefix) for f in fs):
             return desc, c, o
     return 'whole-record', case, None
+
+
+LONG_TARGETS = [4094, 4095, 4096, 4097, 4098, 4099, 8191, 8192, 8193, 8194, 20000]
+
+
+def gen_long_line(rng, refs, total, eol_len, variant):
+    """A well-formed alignment line whose length including its terminator is exactly `total`:
+    long SEQ/QUAL (variant 'seq') or a large Z aux field (variant 'aux'); bufio's buffer is 4096 bytes."""
+    want = total - eol_len
+    rec = gen_record(rng, refs, simple=True)
+    rec['aux'] = [dict(tag=[90, 76], t='Z', vs=[])]
+    if variant == 'seq':
+        n = max(1, (want - 200) // 2)
+        bases = [rng.choice([1, 2, 4, 8, 15]) for _ in range(n)]
+        rec['seqlen'] = n
+        rec['seq'] = [bases[i] << 4 | (bases[i + 1] if i + 1 < n else 0) for i in range(0, n, 2)]
+        rec['qual'] = [rng.randrange(0, 94) for _ in range(n)]
+        rec['cigar'] = [(n << 4) | 0]
+    ln = b'\t'.join(spec_fields(refs, rec, str(rec['flags']).encode(), lambda b: b'1'))
+    pad = want - len(ln)
+    assert pad >= 0, (want, len(ln))
+    rec['aux'][0]['vs'] = [rng.choice(b'ACGTacgt0123456789:;,. ') for _ in range(pad)]
+    ln = b'\t'.join(spec_fields(refs, rec, str(rec['flags']).encode(), lambda b: b'1'))
+    assert len(ln) == want and valid_record(refs, rec)
+    return ln
+
+
+def gen_long_reader_case(rng, total, eol, final, pos, variant, header):
+    refs = gen_header(rng)
+    e = {'lf': b'\n', 'crlf': b'\r\n'}[eol]
+    short = []
+    for _ in range(3):
+        rec = gen_record(rng, refs, simple=True)
+        short.append(b'\t'.join(spec_fields(refs, rec, str(rec['flags']).encode(), lambda b: b'1')))
+    # the last line carries no terminator when there is no final newline
+    last_unterminated = (pos == 'last' and not final)
+    long_ln = gen_long_line(rng, refs, total, 0 if last_unterminated else len(e), variant)
+    lines = {'first': [long_ln] + short, 'middle': short[:1] + [long_ln] + short[1:], 'last': short + [long_ln]}[pos]
+    data = b''
+    for j, ln in enumerate(lines):
+        data += ln + (b'' if (j == len(lines) - 1 and not final) else e)
+    return dict(op='reader', refs=refs, header=header, input=list(data),
+                meta=dict(eol=eol, final=final, good=[True] * len(lines), canon=list(lines), long=True))
 
 
 def corpus_cases():
@@ -1003,6 +1048,19 @@ def run(res, rng, tier):
             data += ln + e
         reader_cases.append(dict(op='reader', refs=refs, header=header, input=list(data),
                                  meta=dict(eol=eol, final=final, good=good, canon=canon)))
+    # lines around and above bufio's 4096-byte buffer (the model splits the whole text, so the buffer
+    # boundary is an implementation detail that only these cases exercise)
+    if quick:
+        combos = [(t, rng.choice(['lf', 'crlf']), rng.random() < 0.5, rng.choice(['first', 'middle', 'last']),
+                   rng.choice(['seq', 'aux']), rng.random() < 0.7) for t in LONG_TARGETS]
+        combos += [(4097, 'lf', True, 'first', 'seq', True), (4098, 'crlf', False, 'last', 'aux', True),
+                   (4096, 'crlf', True, 'middle', 'seq', False)]
+    else:
+        combos = [(t, e, f, p, rng.choice(['seq', 'aux']), rng.random() < 0.7)
+                  for t in LONG_TARGETS + [4100, 4200, 12288, 12289] for e in ('lf', 'crlf') for f in (True, False)
+                  for p in ('first', 'middle', 'last')]
+    for t, e, f, p, v, hd in combos:
+        reader_cases.append(gen_long_reader_case(rng, t, e, f, p, v, hd))
     reader_obs = core.run_harness('c06', [{k: v for k, v in c.items() if k != 'meta'} for c in reader_cases], jobs=4)
 
     # ---- 5. ParseFloat results for every text the model will hand to parse_f32
@@ -1083,6 +1141,8 @@ def run(res, rng, tier):
     for c, o in zip(reader_cases, reader_obs):
         res.evaluations += 1
         meta = c['meta']
+        if meta.get('long'):
+            res.count('reader/long-line/maxlen=%d' % max(len(x) for x in split_lines_spec(bytes(c['input']))))
         res.count('reader/%s/%s/%s/lines%d%s' % ('hdr' if c['header'] else 'nohdr', meta['eol'], 'final-nl' if meta['final'] else 'no-final-nl',
                                                  len(meta['good']), '/has-empty' if b'' in split_lines_spec(bytes(c['input'])) else ''))
         res.nontrivial.add(('reader', bytes(c['input']), c['header']))
@@ -1091,7 +1151,7 @@ def run(res, rng, tier):
             continue
         for f in judge_reader(c, o):
             add_fail(f[0], f[1], c, o, expected=dict(lines=[list(x) for x in split_lines_spec(bytes(c['input']))]))
-        if c['header'] and 'reads' in o:
+        if c['header'] and 'reads' in o and len(c['input']) <= 3000:   # long inputs: implementation + oracle only
             lines = split_lines_spec(bytes(c['input']))
             outs = '[' + '; '.join(c_out_rec(r) for r in (o['reads'] or [])) + ']'
             terms.append(({k: v for k, v in c.items() if k != 'meta'}, o,
@@ -1111,7 +1171,8 @@ def run(res, rng, tier):
                 'quality nil / all 0xff / 0..93 / arbitrary bytes, 0-5 aux fields over all 11 types with boundary integers, float boundary classes, empty and '
                 'non-empty Z/H/B; records outside the valid class (length mismatches, short Seq, unknown CIGAR ops, TAB in name); lines with one field replaced '
                 'by an edge-case text (base-0 integer syntax, signs, CIGAR without letter, aux of every malformed shape); reader inputs with LF/CRLF/mixed '
-                'line ends, with and without final newline, empty and garbage lines, with and without header. A case is distinct by its full content; '
+                'line ends, with and without final newline, empty and garbage lines, with and without header; reader inputs with one line of 4094..4099, 8191..8194 and 20000 bytes '
+                '(long SEQ/QUAL or a large Z field; first, middle or last, followed by short lines). A case is distinct by its full content; '
                 'all are non-trivial (each runs MarshalSAM/UnmarshalSAM/Reader.Read on a full line).')
     picks = [(rt_cases[0], rt_obs[0]), (parse_cases[0], parse_obs[0]), (parse_cases[-1], parse_obs[-1]),
              ({k: v for k, v in reader_cases[0].items() if k != 'meta'}, reader_obs[0])]
